@@ -163,7 +163,7 @@ def run(pid, tier):
                        '(pattern text, header bytes). The random part (patterns of up to 4 keywords, headers of up to 5 mnemonics, seeded) counts only accepted headers as non-trivial.' % (2 if quick else 3))
     rep.assumptions += ['keyword names are upper-case letters followed by lower-case letters; every pattern has at least one mandatory keyword; optional keywords are bracketed individually ([:A][:B], no nesting)',
                         'patterns that violate the side condition (an optional keyword shares a spelling with a keyword that may follow it) are outside the property and not executed',
-                        'headers are non-empty; numeric suffixes have at most 4 digits (values fit int32); headers consist of letters, digits, colon, star and question mark only',
+                        'headers are non-empty; numeric suffixes have at most 4 digits, plus one of 10 digits (3000000000) whose value - it does not fit the 32-bit slot - is not compared while acceptance and the other suffixes are; headers consist of letters, digits, colon, star and question mark only',
                         'slots of the number array beyond the pattern\'s numeric keywords are not compared (the property does not mention them); writes beyond the array length are left to ASan',
                         'the exhaustive product of 4 keywords x 5 mnemonics named in the property text is replaced by the single-mutation neighbourhood (exhaustive for <= %d keywords) plus a seeded random sample for 4 keywords x 5 mnemonics' % (2 if quick else 3)]
     w = lib.workdir(pid)
